@@ -104,102 +104,60 @@ Proof. exact abs_run_cinv. Qed.
 Print Assumptions c14_sticky_abs_complete_preserved.
 
 (* (c) StickyCtl — the op log of the real executor with every guard re-checked — is a
-   StickyAbs run, provided every "previous owner" (lower-generation claimant) is a potential
-   consumer of the partition it claims ... *)
+   StickyAbs run ending in the returned state ... *)
 Theorem c14_sticky_ctl_refines_abs : forall ppt ms prev st0 assigns reassigns obs r,
-  prev_ok ppt ms prev -> NoDup (map snd st0) ->
+  NoDup (map snd st0) ->
   ctl_run ppt ms prev st0 assigns reassigns obs = Some r ->
   abs_run ppt ms (st0, None) (ctl_aops assigns reassigns (cr_reverted r))
   = Some (cr_final r, Some (cr_prebalance r)).
 Proof. exact ctl_run_is_abs_run. Qed.
 Print Assumptions c14_sticky_ctl_refines_abs.
 
-(* ... and then its result (as well as the prebalance copy and the pre-revert state) is a
-   valid assignment. *)
+(* ... and its result (as well as the prebalance copy and the pre-revert state) is a valid
+   assignment — for any user data: [prev] (the lower-generation claimants) is arbitrary.
+   Before /repo c41f241 this needed the hypothesis that every such claimant is a potential
+   consumer of the partition it claims, and was refuted without it (a stale claimant that no
+   longer subscribed got the partition back, or assign() raised KeyError). *)
 Theorem c14_sticky_valid : forall ppt ms prev st0 assigns reassigns obs r,
-  ids_nodup ms -> prev_ok ppt ms prev -> NoDup (map snd st0) ->
+  ids_nodup ms -> NoDup (map snd st0) ->
   ctl_run ppt ms prev st0 assigns reassigns obs = Some r ->
   valid ppt ms (cr_final r) /\ valid ppt ms (cr_prebalance r) /\ valid ppt ms (cr_balanced r).
 Proof. exact ctl_run_valid. Qed.
 Print Assumptions c14_sticky_valid.
 
-(* Without [prev_ok] the statement is false, and the real executor exhibits it (finding F2,
-   replayed against /repo by the harness: corpus/C14/stale_claimant.json): t0 has 3
-   partitions, t1 one; C0 subscribes [t0] and claims t0-0..2 with generation 2, C1 subscribes
-   [t1] and still claims t0-0 with generation 1, C2 subscribes [t0, t1].  The accepted run moves
-   t0-0 "back" to C1, which is not subscribed to t0. *)
-Definition C14_sticky_valid_full : Prop :=
-  forall ppt ms prev st0 assigns reassigns obs r,
-    ids_nodup ms -> NoDup (map snd st0) ->
-    ctl_run ppt ms prev st0 assigns reassigns obs = Some r -> valid ppt ms (cr_final r).
-
-Theorem c14_sticky_valid_full_refuted : ~ C14_sticky_valid_full.
-Proof.
-  intros H.
-  pose (ppt := [(0, Some 3); (1, Some 1)]).
-  pose (ms := [(0, [0]); (1, [1]); (2, [0; 1])]).
-  pose (claims := [(0, 2%Z, [(0, 0); (0, 1); (0, 2)]); (1, 1%Z, [(0, 0)]); (2, (-1)%Z, [])]).
-  pose (assigns := [((1, 0), 1)]).
-  pose (reassigns := [(((0, 0), 1), (0, 0)); (((0, 1), 2), (0, 1))]).
-  destruct (ctl_run ppt ms (snd (init_current claims)) (fst (init_current claims)) assigns reassigns false)
-    as [r|] eqn:E; [|vm_compute in E; discriminate].
-  assert (Hv : valid ppt ms (cr_final r)).
-  { apply (H ppt ms (snd (init_current claims)) (fst (init_current claims)) assigns reassigns false r).
-    - unfold ids_nodup. simpl. repeat (constructor; [simpl; intuition discriminate|]). constructor.
-    - apply nodup_tp_b_spec. vm_compute. reflexivity.
-    - exact E. }
-  apply (valid_b_spec ppt ms) in Hv.
-  - vm_compute in E. inversion E; subst r. vm_compute in Hv. discriminate.
-  - unfold ids_nodup. simpl. repeat (constructor; [simpl; intuition discriminate|]). constructor.
-Qed.
-Print Assumptions c14_sticky_valid_full_refuted.
+(* Regression (corpus/C14/stale_claimant.json): the two op logs that the code before
+   c41f241 produced on the stale-claimant inputs — t0-0 moved "back" to C1, which is not
+   subscribed to t0; the balanced state discarded in favour of the unbalanced copy — are
+   rejected by the skeleton. *)
+Example c14_stale_claimant_logs_rejected :
+  (let claims := [(0, 2%Z, [(0, 0); (0, 1); (0, 2)]); (1, 1%Z, [(0, 0)]); (2, (-1)%Z, [])] in
+   ctl_run [(0, Some 3); (1, Some 1)] [(0, [0]); (1, [1]); (2, [0; 1])]
+           (snd (init_current claims)) (fst (init_current claims))
+           [((1, 0), 1)] [(((0, 0), 1), (0, 0)); (((0, 1), 2), (0, 1))] false = None)
+  /\
+  (let claims := [(0, 2%Z, [(0, 0)]); (1, 1%Z, [(0, 0)]); (2, 2%Z, [(0, 1); (0, 2); (0, 3)]);
+                  (3, (-1)%Z, [])] in
+   ctl_run [(0, Some 4); (1, Some 0)] [(0, [0]); (1, [1]); (2, [0]); (3, [0])]
+           (snd (init_current claims)) (fst (init_current claims))
+           [] [(((0, 1), 3), (0, 1))] true = None).
+Proof. vm_compute. auto. Qed.
 
 (* ============================================================ sticky: balance *)
 (* Full statement: the returned assignment is always KIP-54 balanced. *)
 Definition C14_sticky_balanced_full : Prop :=
   forall ppt ms prev st0 assigns reassigns obs r,
-    ids_nodup ms -> prev_ok ppt ms prev -> NoDup (map snd st0) ->
-    ctl_run ppt ms prev st0 assigns reassigns obs = Some r -> kip54_balanced ms (cr_final r).
-
-(* Without [prev_ok] the statement is false and the real executor exhibits it (finding F3,
-   corpus/C14/stale_claimant.json case 3): t0 has 4 partitions, t1 none; C0 [t0] claims t0-0
-   (generation 2), C1 [t1] still claims t0-0 (generation 1), C2 [t0] claims t0-1,2,3, C3 [t0] is
-   new.  The loop moves t0-1 to C3 (balanced), but balance() restores the prebalance copy —
-   the score of the balanced state counts a phantom empty entry for C1 — and returns
-   C2 = {t0-1,2,3}, C3 = {}. *)
-Definition C14_sticky_balanced_any_prev : Prop :=
-  forall ppt ms prev st0 assigns reassigns obs r,
     ids_nodup ms -> NoDup (map snd st0) ->
     ctl_run ppt ms prev st0 assigns reassigns obs = Some r -> kip54_balanced ms (cr_final r).
-
-Theorem c14_sticky_balanced_any_prev_refuted : ~ C14_sticky_balanced_any_prev.
-Proof.
-  intros H.
-  pose (ppt := [(0, Some 4); (1, Some 0)]).
-  pose (ms := [(0, [0]); (1, [1]); (2, [0]); (3, [0])]).
-  pose (claims := [(0, 2%Z, [(0, 0)]); (1, 1%Z, [(0, 0)]); (2, 2%Z, [(0, 1); (0, 2); (0, 3)]);
-                   (3, (-1)%Z, [])]).
-  pose (reassigns := [(((0, 1), 3), (0, 1))]).
-  destruct (ctl_run ppt ms (snd (init_current claims)) (fst (init_current claims)) [] reassigns true)
-    as [r|] eqn:E; [|vm_compute in E; discriminate].
-  assert (Hi : ids_nodup ms).
-  { unfold ids_nodup. simpl. repeat (constructor; [simpl; intuition discriminate|]). constructor. }
-  assert (Hk : kip54_balanced ms (cr_final r)).
-  { apply (H ppt ms (snd (init_current claims)) (fst (init_current claims)) [] reassigns true r); auto.
-    apply nodup_tp_b_spec. vm_compute. reflexivity. }
-  apply (kip54_balanced_b_spec ms) in Hk; auto.
-  vm_compute in E. inversion E; subst r. vm_compute in Hk. discriminate.
-Qed.
-Print Assumptions c14_sticky_balanced_any_prev_refuted.
 
 (* Proved part: the state in which the reassignment loop stops is KIP-54 balanced (exit via
    `_is_balanced()` or via a pass without a trigger), hence so is the result whenever the
    prebalance copy is not restored.  Missing: that `balance()` never restores an unbalanced
-   prebalance copy (the score comparison is not shown to imply it).  With [prev_ok] neither the
-   exhaustive bounded enumeration nor the random search found an input where the real code
-   returns an unbalanced assignment; without it see c14_sticky_balanced_any_prev_refuted. *)
+   prebalance copy (the score comparison is not shown to imply it).  Neither the exhaustive
+   bounded enumeration nor the random search (with adversarial user data) finds an input where
+   the real code returns an unbalanced assignment.  (Before c41f241 it did: the score of the
+   balanced state could count a phantom empty entry for a stale claimant.) *)
 Theorem c14_sticky_balanced_partial : forall ppt ms prev st0 assigns reassigns obs r,
-  ids_nodup ms -> prev_ok ppt ms prev -> NoDup (map snd st0) ->
+  ids_nodup ms -> NoDup (map snd st0) ->
   ctl_run ppt ms prev st0 assigns reassigns obs = Some r ->
   kip54_balanced ms (cr_balanced r) /\
   (cr_reverted r = false -> kip54_balanced ms (cr_final r)).
